@@ -18,11 +18,12 @@ import FeVerif.Driver.Crc
 import FeVerif.Driver.Loader
 import FeVerif.Driver.Layout
 import FeVerif.Driver.TimeRange
+import FeVerif.Driver.DynEnum
 
 namespace FeVerif
 
 def dispatchers : List (String → List String → Option String) :=
-  [dispatchFrame, dispatchCxxFramer, dispatchIndexer, dispatchFileIndex, dispatchReader, dispatchExtract, dispatchAngle, dispatchDataVersion, dispatchAlign, dispatchNumpy, dispatchC02, dispatchRtcm, dispatchCrc, dispatchLoader, dispatchLayout, dispatchTimeRange]
+  [dispatchFrame, dispatchCxxFramer, dispatchIndexer, dispatchFileIndex, dispatchReader, dispatchExtract, dispatchAngle, dispatchDataVersion, dispatchAlign, dispatchNumpy, dispatchC02, dispatchRtcm, dispatchCrc, dispatchLoader, dispatchLayout, dispatchTimeRange, dispatchDynEnum]
 
 def dispatch (line : String) : String :=
   match line.splitOn " " with
